@@ -22,6 +22,11 @@
 #include <algorithm>
 #include <functional>
 
+// The repository's own Compiler test functions (TestCase classes with compile(cc)) are a Leg 1 source: the test
+// sources are included as they are (they only need TestApp::add, which is inline).
+#include "/repo/asmjit-testing/tests/asmjit_test_compiler_x86.cpp"
+#include "/repo/asmjit-testing/tests/asmjit_test_compiler_a64.cpp"
+
 using namespace asmjit;
 
 static const int NOUT = 8, NS = 8;
@@ -47,6 +52,19 @@ struct ErrH : public ErrorHandler {
 
 static uint32_t init_const(uint32_t v) { return (v * 7919u + 13u) % 65536u; }
 
+static unsigned prog_max_xreg(const vj::Value& prog) {
+  long long mx = 0;
+  for (auto& I : prog.arr) {
+    const std::string& op = I[0].s();
+    auto upd = [&](size_t k) { if (I[k].i() > mx) mx = I[k].i(); };
+    if (op == "vset") upd(1);
+    else if (op == "vget") upd(2);
+    else if (op == "vmov" || op == "vxor" || op == "vor" || op == "vand" || op == "vinitall") { upd(1); upd(2); }
+    else if (op == "vfold") { upd(2); upd(3); }
+  }
+  return unsigned(mx);
+}
+
 struct Prog {
   long long id = 0;
   const vj::Value* rec = nullptr;
@@ -67,7 +85,9 @@ static unsigned prog_max_reg(const vj::Value& prog) {
     else if (op == "cmov") { upd(2); upd(3); upd(4); upd(5); }
     else if (op == "jtab") upd(1);
     else if (op == "call2") { upd(1); for (auto& a : I[2].arr) if (a.i() > mx) mx = a.i(); }
-    else if (op == "label" || op == "jmp") {}
+    else if (op == "label" || op == "jmp" || op == "vmov" || op == "vxor" || op == "vor" || op == "vand" || op == "vinitall") {}
+    else if (op == "vset") upd(2);
+    else if (op == "vget" || op == "vfold") upd(1);
     else for (size_t k = 1; k < I.size(); k++) upd(k);
   }
   return unsigned(mx);
@@ -92,6 +112,9 @@ static FuncNode* build_x86(x86::Compiler& cc, const Prog& p) {
   const vj::Value& prog = *p.prog;
   std::vector<x86::Gp> v(p.nv + 1);
   for (unsigned i = 1; i <= p.nv; i++) v[i] = cc.new_gp32("v%u", i);
+  unsigned nx = prog_max_xreg(prog);
+  std::vector<x86::Vec> xv(nx + 1);
+  for (unsigned i = 1; i <= nx; i++) xv[i] = cc.new_xmm("x%u", i);
   x86::Gp outp = cc.new_gp_ptr("outp");
   x86::Mem stk = cc.new_stack(NS * 4, 4, "stk");
   std::map<long long, Label> labels;
@@ -185,6 +208,20 @@ static FuncNode* build_x86(x86::Compiler& cc, const Prog& p) {
     else if (op == "initall") { for (long long r = I[1].i(); r <= I[2].i(); r++) cc.mov(v[size_t(r)], init_const(uint32_t(r))); }
     else if (op == "fold") {
       for (long long r = I[2].i(); r <= I[3].i(); r++) { cc.imul(R(1), R(1), 31); cc.add(R(1), v[size_t(r)]); mask(R(1)); }
+    }
+    else if (op == "vset") cc.movd(xv[size_t(I[1].i())], R(2));
+    else if (op == "vget") cc.movd(R(1), xv[size_t(I[2].i())]);
+    else if (op == "vmov") cc.movdqa(xv[size_t(I[1].i())], xv[size_t(I[2].i())]);
+    else if (op == "vxor") cc.pxor(xv[size_t(I[1].i())], xv[size_t(I[2].i())]);
+    else if (op == "vor") cc.por(xv[size_t(I[1].i())], xv[size_t(I[2].i())]);
+    else if (op == "vand") cc.pand(xv[size_t(I[1].i())], xv[size_t(I[2].i())]);
+    else if (op == "vinitall") {
+      x86::Gp t = cc.new_gp32("vi");
+      for (long long r = I[1].i(); r <= I[2].i(); r++) { cc.mov(t, init_const(uint32_t(1000 + r))); cc.movd(xv[size_t(r)], t); }
+    }
+    else if (op == "vfold") {
+      x86::Gp t = cc.new_gp32("vf");
+      for (long long r = I[2].i(); r <= I[3].i(); r++) { cc.movd(t, xv[size_t(r)]); cc.imul(R(1), R(1), 31); cc.add(R(1), t); mask(R(1)); }
     }
     else if (op == "ret") cc.ret(R(1));
     else { fprintf(stderr, "unknown op %s\n", op.c_str()); exit(3); }
@@ -486,6 +523,249 @@ static void record_compiler(FILE* out, CC& cc, ErrH& eh, long long id, const std
   w.emit(out);
 }
 
+// ---------------------------------------------------------------------------------------------------------
+// Leg 1 extra source: seeded random functions over mixed register classes and sizes (no execution needed,
+// so instructions are free-form).  Every register is initialised at the top and stored at the end.
+//   x86-64: gp8/gp16/gp32/gp64 + xmm, partial-register writes, same-register idioms, shifts by CL, mul/div,
+//           calls (all xmm are call-clobbered on SysV), diamond + loop.
+//   a64   : w/x + s/d/q vector registers, ld1/st1 lists of 2..4 CONSECUTIVE registers, tbl with register lists,
+//           calls (only the low 64 bits of v8..v15 are preserved), diamond + loop.
+// ---------------------------------------------------------------------------------------------------------
+static void gen_x64(x86::Compiler& cc, vj::Rng& rng) {
+  unsigned n8 = rng.below(4), n16 = rng.below(4), n32 = 2 + rng.below(14), n64 = 1 + rng.below(8), nx = 2 + rng.below(24);
+  std::vector<x86::Gp> g8, g16, g32, g64;
+  std::vector<x86::Vec> xs;
+  FuncNode* fn = cc.add_func(FuncSignature::build<void, void*, uint32_t>());
+  x86::Gp p = cc.new_gp_ptr("p");
+  x86::Gp a1 = cc.new_gp32("a1");
+  fn->set_arg(0, p);
+  fn->set_arg(1, a1);
+  for (unsigned i = 0; i < n8; i++) { g8.push_back(cc.new_gp8("b%u", i)); cc.mov(g8.back(), int(i + 1)); }
+  for (unsigned i = 0; i < n16; i++) { g16.push_back(cc.new_gp16("h%u", i)); cc.mov(g16.back(), int(i + 100)); }
+  for (unsigned i = 0; i < n32; i++) { g32.push_back(cc.new_gp32("w%u", i)); if (i) cc.mov(g32.back(), int(i + 1000)); else cc.mov(g32.back(), a1); }
+  for (unsigned i = 0; i < n64; i++) { g64.push_back(cc.new_gp64("q%u", i)); cc.mov(g64.back(), int(i + 5000)); }
+  for (unsigned i = 0; i < nx; i++) { xs.push_back(cc.new_xmm("x%u", i)); if (rng.chance(1, 2)) cc.movd(xs.back(), g32[rng.below(n32)]); else cc.pxor(xs.back(), xs.back()); }
+  x86::Gp cnt = cc.new_gp32("cnt");
+  Label L1 = cc.new_label(), L2 = cc.new_label(), Lloop = cc.new_label();
+  auto G32 = [&]() -> x86::Gp& { return g32[rng.below(n32)]; };
+  auto G64 = [&]() -> x86::Gp& { return g64[rng.below(n64)]; };
+  auto X = [&]() -> x86::Vec& { return xs[rng.below(nx)]; };
+  auto block = [&](unsigned n) {
+    for (unsigned k = 0; k < n; k++) {
+      switch (rng.below(22)) {
+        case 0: cc.add(G32(), G32()); break;
+        case 1: cc.add(G64(), G64()); break;
+        case 2: if (n16) cc.add(g16[rng.below(n16)], g16[rng.below(n16)]); break;
+        case 3: if (n8) cc.add(g8[rng.below(n8)], g8[rng.below(n8)]); break;
+        case 4: if (n8) cc.movzx(G32(), g8[rng.below(n8)]); break;
+        case 5: cc.paddd(X(), X()); break;
+        case 6: cc.movaps(X(), X()); break;
+        case 7: cc.movd(G32(), X()); break;
+        case 8: cc.movd(X(), G32()); break;
+        case 9: cc.mov(x86::dword_ptr(p, int(4 * rng.below(16))), G32()); break;
+        case 10: cc.movups(x86::ptr(p, int(16 * rng.below(8))), X()); break;
+        case 11: { x86::Gp& d = G32(); x86::Gp& c = G32(); if (d.id() != c.id()) cc.shl(d, c.r8()); break; }
+        case 12: { x86::Gp& r = G32(); cc.xor_(r, r); break; }
+        case 13: cc.pxor(X(), X()); break;
+        case 14: if (n32 >= 3) { unsigned i = rng.below(n32), j = (i + 1) % n32, k2 = (i + 2) % n32; cc.mul(g32[i], g32[j], g32[k2]); } break;
+        case 15: cc.movq(G64(), X()); break;
+        case 16: cc.mov(G32().r8(), int(rng.below(200))); break;                 // partial write of a 32-bit register
+        case 17: if (n16) cc.mov(G32().r16(), g16[rng.below(n16)]); break;       // partial write
+        case 18: cc.add(G32(), x86::dword_ptr(p, int(4 * rng.below(16)))); break;
+        case 19: cc.lea(G64(), x86::ptr(G64(), G64(), 1, 8)); break;
+        case 20: if (rng.chance(1, 3)) {
+          InvokeNode* inv;
+          cc.invoke(Out(inv), imm((void*)helper1), FuncSignature::build<uint32_t, uint32_t, uint32_t>());
+          inv->set_arg(0, G32()); inv->set_arg(1, G32()); inv->set_ret(0, G32());
+        } break;
+        case 21: cc.pshufd(X(), X(), int(rng.below(256))); break;
+      }
+    }
+  };
+  unsigned bl = 3 + rng.below(8);
+  block(bl);
+  cc.cmp(G32(), G32());
+  cc.jb(L1);
+  block(bl);
+  cc.jmp(L2);
+  cc.bind(L1);
+  block(bl);
+  cc.bind(L2);
+  cc.mov(cnt, 3);
+  cc.bind(Lloop);
+  block(bl);
+  cc.sub(cnt, 1);
+  cc.jnz(Lloop);
+  block(bl);
+  int off = 0;
+  for (auto& r : g8) { cc.mov(x86::byte_ptr(p, off), r); off += 1; }
+  for (auto& r : g16) { cc.mov(x86::word_ptr(p, off), r); off += 2; }
+  for (auto& r : g32) { cc.mov(x86::dword_ptr(p, off), r); off += 4; }
+  for (auto& r : g64) { cc.mov(x86::qword_ptr(p, off), r); off += 8; }
+  for (auto& r : xs) { cc.movups(x86::ptr(p, off), r); off += 16; }
+  cc.ret();
+  cc.end_func();
+}
+
+static void gen_a64(a64::Compiler& cc, vj::Rng& rng) {
+  unsigned nw = 2 + rng.below(20), nxr = 1 + rng.below(12), nq = 4 + rng.below(30), nd = rng.below(6), ns = rng.below(6);
+  std::vector<a64::Gp> w, x;
+  std::vector<a64::Vec> q, d, sv;
+  FuncNode* fn = cc.add_func(FuncSignature::build<void, void*, uint32_t>());
+  a64::Gp p = cc.new_gp_ptr("p");
+  a64::Gp a1 = cc.new_gp32("a1");
+  fn->set_arg(0, p);
+  fn->set_arg(1, a1);
+  for (unsigned i = 0; i < nw; i++) { w.push_back(cc.new_gp32("w%u", i)); if (i) cc.mov(w.back(), int(i + 1000)); else cc.mov(w.back(), a1); }
+  for (unsigned i = 0; i < nxr; i++) { x.push_back(cc.new_gp64("x%u", i)); cc.mov(x.back(), int(i + 5000)); }
+  for (unsigned i = 0; i < nq; i++) { q.push_back(cc.new_vec_q("q%u", i)); cc.ldr(q.back(), a64::ptr(p, int(16 * (i % 8)))); }
+  for (unsigned i = 0; i < nd; i++) { d.push_back(cc.new_vec_d("d%u", i)); cc.ldr(d.back(), a64::ptr(p, int(8 * i))); }
+  for (unsigned i = 0; i < ns; i++) { sv.push_back(cc.new_vec_s("s%u", i)); cc.ldr(sv.back(), a64::ptr(p, int(4 * i))); }
+  a64::Gp cnt = cc.new_gp32("cnt");
+  Label L1 = cc.new_label(), L2 = cc.new_label(), Lloop = cc.new_label();
+  auto W = [&]() -> a64::Gp& { return w[rng.below(nw)]; };
+  auto XR = [&]() -> a64::Gp& { return x[rng.below(nxr)]; };
+  auto Q = [&]() -> a64::Vec& { return q[rng.below(nq)]; };
+  // k distinct q registers
+  auto pickq = [&](unsigned k, std::vector<unsigned>& idx) {
+    idx.clear();
+    while (idx.size() < k) { unsigned c = unsigned(rng.below(nq)); if (std::find(idx.begin(), idx.end(), c) == idx.end()) idx.push_back(c); }
+  };
+  std::vector<unsigned> ix;
+  auto block = [&](unsigned n) {
+    for (unsigned k = 0; k < n; k++) {
+      switch (rng.below(20)) {
+        case 0: cc.add(W(), W(), W()); break;
+        case 1: cc.add(XR(), XR(), XR()); break;
+        case 2: cc.add(Q().s4(), Q().s4(), Q().s4()); break;
+        case 3: cc.mov(Q().b16(), Q().b16()); break;
+        case 4: cc.fmov(W(), Q().s()); break;
+        case 5: cc.eor(W(), W(), W()); break;
+        case 6: cc.str(W(), a64::ptr(p, int(4 * rng.below(16)))); break;
+        case 7: cc.str(Q(), a64::ptr(p, int(16 * rng.below(8)))); break;
+        case 8: pickq(2, ix); cc.ld1(q[ix[0]].b16(), q[ix[1]].b16(), a64::ptr(p)); break;
+        case 9: if (nq >= 3) { pickq(3, ix); cc.ld1(q[ix[0]].b16(), q[ix[1]].b16(), q[ix[2]].b16(), a64::ptr(p)); } break;
+        case 10: if (nq >= 4) { pickq(4, ix); cc.ld1(q[ix[0]].b16(), q[ix[1]].b16(), q[ix[2]].b16(), q[ix[3]].b16(), a64::ptr(p)); } break;
+        case 11: pickq(2, ix); cc.st1(q[ix[0]].b16(), q[ix[1]].b16(), a64::ptr(p)); break;
+        case 12: if (nq >= 4) { pickq(4, ix); cc.st1(q[ix[0]].b16(), q[ix[1]].b16(), q[ix[2]].b16(), q[ix[3]].b16(), a64::ptr(p)); } break;
+        case 13: if (nq >= 4) { pickq(4, ix); cc.tbl(q[ix[0]].b16(), q[ix[1]].b16(), q[ix[2]].b16(), q[ix[3]].b16()); } break;
+        case 14: if (nq >= 3) { pickq(3, ix); cc.ld2(q[ix[0]].s4(), q[ix[1]].s4(), a64::ptr(p)); } break;
+        case 15: if (nd) cc.fadd(d[rng.below(nd)], d[rng.below(nd)], d[rng.below(nd)]); break;
+        case 16: if (ns) cc.fadd(sv[rng.below(ns)], sv[rng.below(ns)], sv[rng.below(ns)]); break;
+        case 17: cc.ldr(W(), a64::ptr(p, int(4 * rng.below(16)))); break;
+        case 18: if (rng.chance(1, 3)) {
+          InvokeNode* inv;
+          cc.invoke(Out(inv), imm((void*)helper1), FuncSignature::build<uint32_t, uint32_t, uint32_t>());
+          inv->set_arg(0, W()); inv->set_arg(1, W()); inv->set_ret(0, W());
+        } break;
+        case 19: cc.lsl(W(), W(), W()); break;
+      }
+    }
+  };
+  unsigned bl = 3 + rng.below(8);
+  block(bl);
+  cc.cmp(W(), W());
+  cc.b_lo(L1);
+  block(bl);
+  cc.b(L2);
+  cc.bind(L1);
+  block(bl);
+  cc.bind(L2);
+  cc.mov(cnt, 3);
+  cc.bind(Lloop);
+  block(bl);
+  cc.subs(cnt, cnt, 1);
+  cc.b_ne(Lloop);
+  block(bl);
+  int off = 0;
+  for (auto& r : w) { cc.str(r, a64::ptr(p, off)); off += 4; }
+  off = (off + 7) & ~7;
+  for (auto& r : x) { cc.str(r, a64::ptr(p, off)); off += 8; }
+  for (auto& r : d) { cc.str(r, a64::ptr(p, off)); off += 8; }
+  for (auto& r : sv) { cc.str(r, a64::ptr(p, off)); off += 4; }
+  off = (off + 15) & ~15;
+  for (auto& r : q) { cc.str(r, a64::ptr(p, off)); off += 16; }
+  cc.ret();
+  cc.end_func();
+}
+
+
+// run `body` (which writes one record to `out`) in a forked child; a crash of the allocator becomes a record
+template<typename F>
+static void in_child(FILE* out, long long id, const char* arch_s, const std::string& meta_json, F&& body) {
+  fflush(out);
+  pid_t pid = fork();
+  if (pid == 0) { alarm(60); body(); fflush(out); _exit(0); }
+  int st = 0;
+  waitpid(pid, &st, 0);
+  if (!(WIFEXITED(st) && WEXITSTATUS(st) == 0)) {
+    fprintf(out, "{\"e\":\"Func\",\"id\":%lld,\"arch\":\"%s\",\"meta\":%s,\"crashed\":%d}\n", id, arch_s, meta_json.c_str(), WIFSIGNALED(st) ? WTERMSIG(st) : -1);
+    fflush(out);
+  }
+}
+
+static int cmd_record_gen(const char* arch_s, const char* out_path, long long seed, long long count) {
+  Arch arch = !strcmp(arch_s, "x64") ? Arch::kX64 : Arch::kAArch64;
+  FILE* out = fopen(out_path, "w");
+  if (!out) { perror(out_path); return 3; }
+  for (long long i = 0; i < count; i++) {
+    vj::Rng rng(uint64_t(seed) * 1000003ull + uint64_t(i));
+    CodeHolder code;
+    code.init(Environment(arch));
+    ErrH eh;
+    code.set_error_handler(&eh);
+    char meta[96];
+    snprintf(meta, sizeof meta, "[\"gen\",%lld,%lld]", seed, i);
+    in_child(out, i + 1, arch_s, meta, [&]() {
+      if (arch == Arch::kAArch64) { a64::Compiler cc(&code); gen_a64(cc, rng); record_compiler(out, cc, eh, i + 1, "gen", meta); }
+      else { x86::Compiler cc(&code); gen_x64(cc, rng); record_compiler(out, cc, eh, i + 1, "gen", meta); }
+    });
+  }
+  fclose(out);
+  return 0;
+}
+
+// ---------------------------------------------------------------------------------------------------------
+// Leg 1 source: the functions of asmjit_test_compiler_x86.cpp / _a64.cpp
+// ---------------------------------------------------------------------------------------------------------
+static int cmd_record_tests(const char* arch_s, const char* out_path) {
+  Arch arch = !strcmp(arch_s, "x64") ? Arch::kX64 : !strcmp(arch_s, "x86") ? Arch::kX86 : Arch::kAArch64;
+  TestApp app;
+  if (arch == Arch::kAArch64) compiler_add_a64_tests(app); else compiler_add_x86_tests(app);
+  FILE* out = fopen(out_path, "w");
+  if (!out) { perror(out_path); return 3; }
+  long long id = 0;
+  for (auto& t : app._tests) {
+    id++;
+    CodeHolder code;
+    Environment env(arch);
+    code.init(env, CpuInfo::host().features());
+    ErrH eh;
+    code.set_error_handler(&eh);
+    vj::W mw; mw.beginArr().val("test").val(t->name()).endArr();
+    std::string meta = mw.s;
+    in_child(out, id, arch_s, meta, [&]() {
+      if (arch == Arch::kAArch64) { a64::Compiler cc(&code); t->compile(cc); record_compiler(out, cc, eh, id, "test", meta); }
+      else { x86::Compiler cc(&code); t->compile(cc); record_compiler(out, cc, eh, id, "test", meta); }
+    });
+  }
+  fclose(out);
+  return 0;
+}
+
+// developer aid: log of one generated function
+static int cmd_asm_gen(const char* arch_s, long long seed, long long i) {
+  Arch arch = !strcmp(arch_s, "x64") ? Arch::kX64 : Arch::kAArch64;
+  vj::Rng rng(uint64_t(seed) * 1000003ull + uint64_t(i));
+  CodeHolder code;
+  code.init(Environment(arch));
+  FileLogger lg(stdout);
+  code.set_logger(&lg);
+  if (arch == Arch::kAArch64) { a64::Compiler cc(&code); cc.add_diagnostic_options(DiagnosticOptions::kRAAnnotate | DiagnosticOptions::kRADebugAll); gen_a64(cc, rng); fflush(stdout); Error e = cc.finalize(); printf("error=%u\n", unsigned(e)); }
+  else { x86::Compiler cc(&code); cc.add_diagnostic_options(DiagnosticOptions::kRAAnnotate | DiagnosticOptions::kRADebugAll); gen_x64(cc, rng); Error e = cc.finalize(); printf("error=%u\n", unsigned(e)); }
+  return 0;
+}
+
 // developer aid: print the code before/after register allocation
 static int cmd_asm(const char* in_path, long long id) {
   auto recs = vj::read_ndjson(in_path);
@@ -517,22 +797,27 @@ static int cmd_record(const char* arch_s, const char* in_path, const char* out_p
     code.init(Environment(arch));
     ErrH eh;
     code.set_error_handler(&eh);
-    if (arch == Arch::kAArch64) {
-      a64::Compiler cc(&code);
-      build_a64(cc, p);
-      record_compiler(out, cc, eh, p.id, "leg2", json_of(rec["meta"]));
-    }
-    else {
-      x86::Compiler cc(&code);
-      build_x86(cc, p);
-      record_compiler(out, cc, eh, p.id, "leg2", json_of(rec["meta"]));
-    }
+    in_child(out, p.id, arch_s, json_of(rec["meta"]), [&]() {
+      if (arch == Arch::kAArch64) {
+        a64::Compiler cc(&code);
+        build_a64(cc, p);
+        record_compiler(out, cc, eh, p.id, "leg2", json_of(rec["meta"]));
+      }
+      else {
+        x86::Compiler cc(&code);
+        build_x86(cc, p);
+        record_compiler(out, cc, eh, p.id, "leg2", json_of(rec["meta"]));
+      }
+    });
   }
   fclose(out);
   return 0;
 }
 
 int main(int argc, char** argv) {
+  if (argc >= 4 && !strcmp(argv[1], "recordtests")) return cmd_record_tests(argv[2], argv[3]);
+  if (argc >= 5 && !strcmp(argv[1], "asmgen")) return cmd_asm_gen(argv[2], atoll(argv[3]), atoll(argv[4]));
+  if (argc >= 6 && !strcmp(argv[1], "recordgen")) return cmd_record_gen(argv[2], argv[3], atoll(argv[4]), atoll(argv[5]));
   if (argc >= 5 && !strcmp(argv[1], "record")) return cmd_record(argv[2], argv[3], argv[4]);
   if (argc >= 4 && !strcmp(argv[1], "run")) return cmd_run(argv[2], argv[3]);
   if (argc >= 4 && !strcmp(argv[1], "asm")) return cmd_asm(argv[2], atoll(argv[3]));
@@ -558,6 +843,9 @@ static FuncNode* build_a64(a64::Compiler& cc, const Prog& p) {
   const vj::Value& prog = *p.prog;
   std::vector<a64::Gp> v(p.nv + 1);
   for (unsigned i = 1; i <= p.nv; i++) v[i] = cc.new_gp32("v%u", i);
+  unsigned nx = prog_max_xreg(prog);
+  std::vector<a64::Vec> xv(nx + 1);
+  for (unsigned i = 1; i <= nx; i++) xv[i] = cc.new_vec_q("x%u", i);
   a64::Gp outp = cc.new_gp_ptr("outp");
   a64::Mem stk = cc.new_stack(NS * 4, 4, "stk");
   std::map<long long, Label> labels;
@@ -666,6 +954,22 @@ static FuncNode* build_a64(a64::Compiler& cc, const Prog& p) {
       a64::Gp k31 = cc.new_gp32("k31");
       cc.mov(k31, 31);
       for (long long r = I[2].i(); r <= I[3].i(); r++) { cc.mul(R(1), R(1), k31); cc.add(R(1), R(1), v[size_t(r)]); mask(R(1)); }
+    }
+    else if (op == "vset") cc.fmov(xv[size_t(I[1].i())].s(), R(2));
+    else if (op == "vget") cc.fmov(R(1), xv[size_t(I[2].i())].s());
+    else if (op == "vmov") cc.mov(xv[size_t(I[1].i())].b16(), xv[size_t(I[2].i())].b16());
+    else if (op == "vxor") cc.eor(xv[size_t(I[1].i())].b16(), xv[size_t(I[1].i())].b16(), xv[size_t(I[2].i())].b16());
+    else if (op == "vor") cc.orr(xv[size_t(I[1].i())].b16(), xv[size_t(I[1].i())].b16(), xv[size_t(I[2].i())].b16());
+    else if (op == "vand") cc.and_(xv[size_t(I[1].i())].b16(), xv[size_t(I[1].i())].b16(), xv[size_t(I[2].i())].b16());
+    else if (op == "vinitall") {
+      a64::Gp t = cc.new_gp32("vi");
+      for (long long r = I[1].i(); r <= I[2].i(); r++) { cc.mov(t, init_const(uint32_t(1000 + r))); cc.fmov(xv[size_t(r)].s(), t); }
+    }
+    else if (op == "vfold") {
+      a64::Gp t = cc.new_gp32("vf");
+      a64::Gp k31 = cc.new_gp32("k31");
+      cc.mov(k31, 31);
+      for (long long r = I[2].i(); r <= I[3].i(); r++) { cc.fmov(t, xv[size_t(r)].s()); cc.mul(R(1), R(1), k31); cc.add(R(1), R(1), t); mask(R(1)); }
     }
     else if (op == "ret") cc.ret(R(1));
     else { fprintf(stderr, "unknown op %s\n", op.c_str()); exit(3); }
